@@ -89,7 +89,7 @@ class GlobalCoords(GlobalCoordsABC):
         self._internal_coords = OrderedDict()
 
     @staticmethod
-    def _convert_dropped_to_internal(dropped_dimensions):
+    def _convert_dropped_to_internal(dropped_dimensions, taken_names=()):
         """
         Convert the `~astropy.wcs.wcsapi.SlicedLowLevelWCS` style
         ``dropped_world_dimensions`` dictionary to the GlobalCoords internal
@@ -146,7 +146,9 @@ class GlobalCoords(GlobalCoordsABC):
 
             # Special case SkyCoord to get a pretty name
             # (unless another dropped coordinate in the same frame already has that name)
-            if isinstance(high_level_object, SkyCoord) and high_level_object.name not in new_internal_coords:
+            # or a coordinate from another source (``taken_names``)
+            if (isinstance(high_level_object, SkyCoord) and high_level_object.name not in new_internal_coords
+                    and high_level_object.name not in taken_names):
                 names = high_level_object.name
 
             new_internal_coords[names] = (physical_types, high_level_object)
@@ -167,13 +169,13 @@ class GlobalCoords(GlobalCoordsABC):
         if hasattr(self._ndcube.wcs.low_level_wcs, "dropped_world_dimensions"):
             dropped_world = copy.deepcopy(self._ndcube.wcs.low_level_wcs.dropped_world_dimensions)
             if dropped_world:
-                wcs_dropped = self._convert_dropped_to_internal(dropped_world)
+                wcs_dropped = self._convert_dropped_to_internal(dropped_world, taken_names=tuple(all_coords))
                 all_coords.update(wcs_dropped)
 
         # Copy, as the conversion below empties the dictionary it is given.
         ec_dropped = copy.deepcopy(self._ndcube.extra_coords.dropped_world_dimensions)
         if "value" in ec_dropped:
-            all_coords.update(self._convert_dropped_to_internal(ec_dropped))
+            all_coords.update(self._convert_dropped_to_internal(ec_dropped, taken_names=tuple(all_coords)))
 
         return all_coords
 
